@@ -955,7 +955,8 @@ func (s *impl) onAck(pkt *mqttp.Ack) mqttp.IFace {
 		}
 	case mqttp.PUBREC:
 		// remote received PUBLISH message sent by this server
-		if s.tx.pubOut.release(pkt) {
+		outstanding := s.tx.pubOut.release(pkt)
+		if outstanding {
 			s.metric.OnSubUnAckSent(1)
 		}
 
@@ -964,8 +965,13 @@ func (s *impl) onAck(pkt *mqttp.Ack) mqttp.IFace {
 		id, _ := pkt.ID()
 
 		if s.version == mqttp.ProtocolV50 && pkt.Reason() >= mqttp.CodeUnspecifiedError {
-			// v5.0 [MQTT-4.9]
-			s.tx.releaseID(id)
+			// v5.0 [MQTT-4.9]: the refusal ends the delivery and gives its slot back - the slot of
+			// a delivery that is outstanding: a repeated refusal, or one for an identifier that is
+			// not in flight, must not raise the send quota above the client's Receive Maximum
+			if outstanding {
+				s.tx.releaseID(id)
+			}
+
 			discard = true
 		}
 
